@@ -594,7 +594,7 @@ func (s *UtxoStore) VerifWF() bool { return s != nil && s.bucketMeta != nil }
 //@   nopanic off
 //@   requires s != nil && s.bucketMeta != nil && s.ksmgr != nil && s.utxoStore != nil && tx != nil
 //@   modifies *
-//@   only fetchNsUnspentValueFromRawCredit valueUnmined putRawUnmined FetchBucket putRawUnminedInput canonicalOutPoint IsStaking StdEncodeAddress SecondEncodeAddress
+//@   only fetchNsUnspentValueFromRawCredit valueUnmined putRawUnmined FetchBucket putRawUnminedInput canonicalOutPoint IsStaking StdEncodeAddress SecondEncodeAddress keyAddressRecord existsRawAddressRecord
 //@   dead returns 1
 // C09: the spent-by-unconfirmed marker of a transaction returning to the pending set is filed under the outpoint its
 // input spends (hash and OUTPUT index of the previous transaction)
@@ -610,6 +610,12 @@ func (s *UtxoStore) VerifWF() bool { return s != nil && s.bucketMeta != nil }
 //@   ifat "err = readRawCreditKey(credKey, cred)" guard[C10] cred.flags.Class == ClassStakingUtxo || cred.flags.Class == ClassBindingUtxo
 //@   at "err = deleteRawAddressRecord(nsAddresses, addrKey)"#1 assert[C12] readAddressHeight(addrVal) == curHeight
 //@   at "err = deleteRawAddressRecord(nsAddresses, addrKey)"#2 assert[C12] readAddressHeight(addrVal) == curHeight
+// "listed from then on": a record is deleted only in its staking form (those records are created by a first payment,
+// never by issuing an address); the record of a standard address, the one NewAddress writes, is kept and reset to unused
+//@   at "err = deleteRawAddressRecord(nsAddresses, addrKey)"#1 assert[C12] ghostb("psIsStaking", ps)
+//@   at "err = deleteRawAddressRecord(nsAddresses, addrKey)"#2 assert[C12] ghostb("psIsStaking", ps)
+//@   at "err = putRawAddressRecord(nsAddresses, addrKey, valueAddressRecord(addrRec))"#1 assert[C12] readAddressHeight(addrVal) == curHeight && addrRec.blockHeight == 0
+//@   at "err = putRawAddressRecord(nsAddresses, addrKey, valueAddressRecord(addrRec))"#2 assert[C12] readAddressHeight(addrVal) == curHeight && addrRec.blockHeight == 0
 //@   at "err = putRawUnmined(nsUnmined, txHash[:], unminedVal)" assert[C09] len(unminedVal) >= 8 && strOf(unminedVal[8:]) == ghosts("txDBBytes", &rec.MsgTx)
 //@   at "err = putRawUnspent(nsUnspent, canonicalUnspentKey(ma.Account(), &prevOut.Hash, prevOut.Index), unspentVal)" assert[C01] len(unspentVal) == 40 && len(credKey) >= 72 && bytesEq(unspentVal, 0, credKey, 32, 40)
 
